@@ -89,7 +89,7 @@ class ADef(Abstract):
                 self.world.__dict__["in_model"] = was
             for v in definition_visitors:
                 v.on_definition(self, dep)
-        t = Sym(_kind_="StructureType", _isa_=frozenset({"CompositeType", "StructureType", "SerializableType"}), full_name=self.full_name, version=self.version, label=self.label, source_file_path=self.file_path, fixed_port_id=self.fixed_port_id)
+        t = Sym(_kind_="StructureType", _isa_=frozenset({"CompositeType", "StructureType", "SerializableType"}), full_name=self.full_name, version=self.version, label=self.label, source_file_path=self.file_path, fixed_port_id=self.fixed_port_id, has_fixed_port_id=self.fixed_port_id is not None, source_file_path_to_root=self.root_namespace_path, root_namespace=self.root_namespace, short_name=self.short_name, full_namespace=self.full_namespace, name_components=list(self.name_components))
         self.__dict__["composite_type"] = t
         return t
 
